@@ -139,12 +139,22 @@ async fn scenario(ctx: &Ctx, out: &mut Outcome, rng: &mut Rng, idx: u64) {
     }
     // ---- writes during the split
     let nb = 1 + rng.usize(3);
+    let mut last_accepted: Option<Vec<RowSpec>> = None;
+    let mut during_split: Vec<RowSpec> = vec![];
     for bi in 0..nb {
         let mut rows_ = gen_batch(rng, sp, &mut next_id, &metric);
         if rng.chance(1, 3) {
             // genuine exact duplicate inside the batch (same id deliberately: an identical row)
             let d = rows_[rng.usize(rows_.len())].clone();
             rows_.push(d);
+        }
+        // genuine exact duplicates across requests: now and then the previous request is sent again verbatim (a
+        // client re-sending its samples, two scrapers delivering the same scrape) - accepted again, copied again
+        if let Some(prev) = &last_accepted {
+            if rng.chance(1, 3) {
+                rows_ = prev.clone();
+                out.count("routing.requests_sent_again_verbatim", 1);
+            }
         }
         let before: BTreeSet<String> = local.list_chunks().await.unwrap_or_default().into_iter().map(|c| c.chunk_path).collect();
         // now and then the catalog refuses one of the two split-state lookups of this write (the first or the
@@ -176,6 +186,8 @@ async fn scenario(ctx: &Ctx, out: &mut Outcome, rng: &mut Rng, idx: u64) {
             continue;
         }
         ingested.extend(rows_.clone());
+        during_split.extend(rows_.clone());
+        last_accepted = Some(rows_.clone());
         let after = local.list_chunks().await.unwrap_or_default();
         let mut under_a: Vec<i64> = vec![];
         let mut under_b: Vec<i64> = vec![];
@@ -201,6 +213,40 @@ async fn scenario(ctx: &Ctx, out: &mut Outcome, rng: &mut Rng, idx: u64) {
                 if at_sp_wrong { "C15/routing/row-at-split-point-in-lower-shard" } else { "C15/routing/rows-not-partitioned-by-split-point" },
                 &format!("{:?}: new shard A got ids {:?} (expected {:?}), B got {:?} (expected {:?})", phase, under_a, want_a, under_b, want_b),
                 json!({"scenario": idx, "seed": ctx.seed, "split_point": sp, "batch": rows_.iter().map(|r| (r.id, r.ts)).collect::<Vec<_>>()}),
+            );
+        }
+    }
+    // ---- the new shards as a whole: every row accepted during the split once on its side, as often as it was accepted
+    {
+        let mut under_a: Vec<i64> = vec![];
+        let mut under_b: Vec<i64> = vec![];
+        for c in local.list_chunks().await.unwrap_or_default() {
+            let in_a = c.chunk_path.contains(&format!("shard={}", a));
+            let in_b = c.chunk_path.contains(&format!("shard={}", b));
+            if in_a || in_b {
+                let ids = rows::read_chunk_ids(store.as_ref(), &c.chunk_path).await.unwrap_or_default();
+                if in_a {
+                    under_a.extend(ids);
+                } else {
+                    under_b.extend(ids);
+                }
+            }
+        }
+        // (only rows of accepted requests are judged: what a refused request may have left behind is not C15's subject)
+        let accepted_ids: BTreeSet<i64> = during_split.iter().map(|r| r.id).collect();
+        under_a.retain(|i| accepted_ids.contains(i));
+        under_b.retain(|i| accepted_ids.contains(i));
+        let mut want_a: Vec<i64> = during_split.iter().filter(|r| r.ts < sp).map(|r| r.id).collect();
+        let mut want_b: Vec<i64> = during_split.iter().filter(|r| r.ts >= sp).map(|r| r.id).collect();
+        for v in [&mut under_a, &mut under_b, &mut want_a, &mut want_b] {
+            v.sort();
+        }
+        out.eval();
+        if under_a != want_a || under_b != want_b {
+            out.violation(
+                "C15/routing/new-shards-do-not-hold-every-accepted-row-once",
+                &format!("{:?}: after {} accepted rows the new shard A holds ids {:?} (expected {:?}), B holds {:?} (expected {:?})", phase, during_split.len(), under_a, want_a, under_b, want_b),
+                json!({"scenario": idx, "seed": ctx.seed, "split_point": sp}),
             );
         }
     }
